@@ -281,6 +281,16 @@ class KernelFacts:
         # ---- boundary terms ------------------------------------------------------------------------------------------------------
         ifs = [st for st in inner if isinstance(st, CIf)]
         seen = {}
+        # coordinates loaded into scalars (y = yy[jj]) may stand for the grid entry in the boundary tests: each such scalar is assigned
+        # once, in a loop that encloses the tests
+        coord = {}
+        counts = {}
+        for st_ in cf.walk():
+            if isinstance(st_, CAssign) and isinstance(st_.target, ast.Name):
+                counts[st_.target.id] = counts.get(st_.target.id, 0) + 1
+                if st_.op == '=' and isinstance(st_.value, ast.Subscript) and re.fullmatch(r'(\w+)\[(\w+)\]', unparse(st_.value)) and unparse(st_.value.value) in self.G:
+                    coord[st_.target.id] = unparse(st_.value)
+        coord = {k_: v_ for k_, v_ in coord.items() if counts.get(k_) == 1}
         for st in ifs:
             flat = []
 
@@ -298,6 +308,7 @@ class KernelFacts:
                     bad = True
                     continue
                 l, r_ = unparse(c.left), unparse(c.comparators[0])
+                l = coord.get(l, l)
                 if l in ('Mfirst', 'Mlast'):
                     mcond = (l, type(c.ops[0]).__name__, r_)
                 else:
